@@ -175,7 +175,7 @@ def run(pid, tier, seed, work, log, replay=None):
             tpl = G.gc_templates()          # exhaustive small grammar; the quick tier takes a seeded sample
             if tier == 'quick':
                 rng = random.Random(seed * 7919 + 1)
-                tpl = rng.sample(tpl, 700)
+                tpl = rng.sample(tpl, {'C03': 320, 'C18': 200, 'C17': 160}[pid])
             scen += tpl
         fixed = os.path.join(V.VERIF, 'scenarios', 'fixed', pid)
         if os.path.isdir(fixed):
